@@ -1116,12 +1116,48 @@ fn cli_configurations(args: &Args, rep: &Reporter) -> J {
             }
         }
     }
+    // diagnostic rendering through the real binary: faulty operation / schema files x the four line-ending forms a
+    // GraphQL text may have (LF, CR LF, lone CR, one stray CR in an LF file) x the three output formats
+    {
+        let ops = [
+            "query Q {\n  me {\n    id\n    nope\n  }\n}\n",
+            "query Q {\n  me {\n    id\n",
+            "query Q {\n  me { id # \u{e9}\u{1f600}\n  nope }\n}\n",
+            "query Q {\n  me { id }\n}\n\n\nquery Q {\n  me { name }\n}\n",
+        ];
+        let users = ["type User { id: ID! name: String }", "type User {\n  id: ID!\n  name: Nope\n}", "type User {\n  id: ID!\n  name: String"];
+        let ending = |t: &str, e: usize| match e {
+            0 => t.to_string(),
+            1 => t.replace('\n', "\r\n"),
+            2 => t.replace('\n', "\r"),
+            _ => t.replacen('\n', "\r", 1),
+        };
+        for fmt in ["json", "rdjson", "human"] {
+            for e in 0..4 {
+                for (oi, op) in ops.iter().enumerate() {
+                    for (ui, user) in users.iter().enumerate() {
+                        if oi != 0 && ui != 0 {
+                            continue;
+                        }
+                        for cmd in [&["check"][..], &["generate"][..]] {
+                            let y = format!("schema: ./schema/*.graphql\ndocuments: ./src/*.graphql\nextensions:\n  nitrogql:\n    generate:\n      schemaOutput: ./gen/schema.d.ts\n#@USER@{}\n#@OP@{}\n", ending(user, e).replace('\n', "\\n").replace('\r', "\\r"), ending(op, e).replace('\n', "\\n").replace('\r', "\\r"));
+                            let mut a: Vec<String> = vec!["--config-file".into(), "graphql.config.yaml".into(), "--output-format".into(), fmt.into()];
+                            a.extend(cmd.iter().map(|x| x.to_string()));
+                            cases.push((y, a, format!("diagnostics format={fmt} line-endings={e} operation={oi} schema={ui} commands={cmd:?}")));
+                        }
+                    }
+                }
+            }
+        }
+    }
     let outcomes: Mutex<BTreeMap<String, u64>> = Mutex::new(BTreeMap::new());
     par_for(cases.len(), args.threads, |i| {
         let (y, a, tag) = &cases[i];
+        let op_text = y.split_once("#@OP@").map(|x| x.1.trim_end_matches('\n').replace("\\n", "\n").replace("\\r", "\r"));
+        let y = &y.split_once("#@OP@").map_or(y.clone(), |x| x.0.to_string());
         let mut p = cli::Project::default();
         // a case may carry its own definition of `User` (after the marker, which is a YAML comment)
-        let user = y.split_once("#@USER@").map(|x| x.1.trim_end().replace("\\n", "\n"));
+        let user = y.split_once("#@USER@").map(|x| x.1.trim_end_matches('\n').replace("\\n", "\n").replace("\\r", "\r"));
         let y = &y.split_once("#@USER@").map_or(y.clone(), |x| x.0.to_string());
         p.files.insert("graphql.config.yaml".into(), y.clone());
         if let Some(u) = &user {
@@ -1129,7 +1165,7 @@ fn cli_configurations(args: &Args, rep: &Reporter) -> J {
         } else {
             p.files.insert("schema/s.graphql".into(), "type Query { me: User }\ntype User { id: ID! name: String }\n".into());
         }
-        p.files.insert("src/q.graphql".into(), "query Q { me { id name } }\n".into());
+        p.files.insert("src/q.graphql".into(), op_text.clone().unwrap_or_else(|| "query Q { me { id name } }\n".to_string()));
         let dir = cli::thread_dir("c08");
         cli::materialize(&dir, &p);
         let r = cli::run(&dir, a, &[], Duration::from_secs(30));
@@ -1137,6 +1173,7 @@ fn cli_configurations(args: &Args, rep: &Reporter) -> J {
         let panicked = stderr.contains("panicked at");
         *outcomes.lock().unwrap().entry(format!("exit {:?}{}", r.code, if r.timed_out { " (timeout)" } else { "" })).or_insert(0) += 1;
         if panicked || r.timed_out || !matches!(r.code, Some(0) | Some(1)) {
+            let _ = &op_text;
             let site = stderr.lines().find(|l| l.contains("panicked at")).unwrap_or("").split("panicked at ").nth(1).unwrap_or("").split(':').next().unwrap_or("").to_string();
             let site = site.split("/crates/").nth(1).map(|x| format!("crates/{x}")).unwrap_or(site);
             rep.report(Violation {
